@@ -240,3 +240,51 @@ def selftest(recs):
     if ks:
         t = [dict(e) for e in body]; t[ks[0]]["steps"] = list(reversed(t[ks[0]]["steps"]))
         rejected(t, "the steps of a pipeline in reverse order")
+
+
+def cache_trace(events):
+    """grid cache events of one process (emitted under the cache mutex, so the sequence order is the real order)
+    -> records for Trace_C18.  An address may be reused once the cache was cleared and the last operator holding
+    the grid is gone: object tokens carry the number of clears before their load."""
+    out, gen, token = [{"ev": "reset"}], 0, {}
+    for e in sorted(events, key=lambda e: int(e["seq"])):
+        if e["ev"] == "grid_clear":
+            gen += 1
+            out.append({"ev": "grid_clear"})
+        elif e["ev"] == "grid_get":
+            r = {"ev": "grid_get", "name": e["name"], "outcome": e["outcome"], "obj": ""}
+            if e["outcome"] == "load":
+                token[e["obj"]] = "%s@%d" % (e["obj"], gen)
+            if e["outcome"] in ("load", "hit"):
+                r["obj"] = token.get(e["obj"], e["obj"])
+            out.append(r)
+    return out
+
+
+def check_repo_cache(res):
+    """the grid cache events of the repository's own test suite are those of a sequential cache (Trace_C18)"""
+    procs, summary = record_repo_tests()
+    n = 0
+    for i, evs in enumerate(procs):
+        recs = cache_trace(evs)
+        if len(recs) < 2:
+            continue
+        n += len(recs)
+        path = os.path.join(vlib.WORK, "traces", "repo-cache-%d.ndjson" % i)
+        os.makedirs(os.path.dirname(path), exist_ok=True)
+        vlib.write_ndjson(path, recs)
+        info = vlib.tlc_trace("Trace_C18", path, tag="rt-cache-%d" % i)
+        res.states += info["states"]
+        res.transitions += info["generated"]
+        res.trace_events += info["matched"] or 0
+        if info["accepted"]:
+            res.trace_segments_accepted += 1
+        else:
+            k = info["matched"] or 0
+            res.add_violation({"suite": "repo-tests-cache", "what": "grid cache events of the repository's tests rejected by Trace_C18",
+                               "first_unmatched_event": info["next"], "events_before": recs[max(0, k - 10):k],
+                               "signature": "repo-cache|" + json.dumps(info["next"], sort_keys=True)})
+    if n < 10:
+        raise vlib.ToolError("the repository's test suite produced only %d grid cache events: hooks missing?" % n)
+    res.extra["repo_test_cache_events"] = n
+    return n
